@@ -111,7 +111,10 @@ Record obs := mkO { o_vals : list entry; o_fresh : list entry; o_packs : list N;
 
 Inductive case :=
 | CHist (r : repo) (steps : list (list N * obs))
-| CCodec (ents : list entry) (decoded : list entry) (decoded_packs : list N).
+| CCodec (ents : list entry) (decoded : list entry) (decoded_packs : list N)
+(* an authenticated index file holding a value that does not fit 32 bits, read by the real CLI in a
+   subprocess: the command must report an error, not die from a panic *)
+| CReject (file_fits_u32 : bool) (crashed : bool).
 
 Definition step_ok (r : repo) (listing : list N) (o : obs) : bool :=
   nodup_b (o_vals o) && same_set (o_vals o) (union_of r listing)
@@ -123,6 +126,7 @@ Definition check_C08 (c : case) : bool :=
   match c with
   | CHist r steps => forallb (fun s => step_ok r (fst s) (snd s)) steps
   | CCodec ents decoded dpacks => same_multiset ents decoded && same_nset dpacks (map e_pack ents)
+  | CReject _ crashed => negb crashed
   end.
 
 Fixpoint model_steps (r : repo) (mi : index) (steps : list (list N * obs)) : bool :=
@@ -136,14 +140,15 @@ Fixpoint model_steps (r : repo) (mi : index) (steps : list (list N * obs)) : boo
   end.
 
 (* 0 ok; 1 model <> implementation; 2 loaded index differs from the union of the index files present
-   (or incremental <> fresh, or Lookup/LookupSize disagree with the entries); 3 encode/decode loses entries *)
+   (or incremental <> fresh, or Lookup/LookupSize disagree with the entries); 3 encode/decode loses entries; 4 the CLI crashed (panic) on an index file with an oversized value *)
 Definition check_case (c : case) : nat :=
   if check_C08 c then
     match c with
     | CHist r steps => if model_steps r empty_index steps then 0 else 1
     | CCodec ents decoded dpacks =>
       if same_multiset (flat (encode ents)) decoded then 0 else 1
+    | CReject _ _ => 0
     end
-  else match c with CHist _ _ => 2 | CCodec _ _ _ => 3 end.
+  else match c with CHist _ _ => 2 | CCodec _ _ _ => 3 | CReject _ _ => 4 end.
 
 End C08m.
